@@ -1,6 +1,6 @@
 (* C19Proofs.v -- proofs of the C19 statements of model/CallSpec.v, on top of proofs/ExecInv.v. *)
 From Coq Require Import Lia.
-From Aqua Require Import Base Json Air Trace Handler Values Scalars Lens Exec RunExec CallSpec ExecInv.
+From Aqua Require Import Base Json Air Trace Handler Values Scalars Lens Exec RunExec ExecStreams CallSpec ExecInv ExecStreamsInv.
 Open Scope N_scope.
 Open Scope list_scope.
 
@@ -182,6 +182,21 @@ Corollary run1_next_peers fuel i code d next reqs signed :
   run1 fuel i = OutNewData code d next reqs signed ->
   NoDup next /\ ~ In (rp_current_peer (ri_params i)) next.
 Proof. apply (run_next_peers no_streams no_finish (hook_preserves_no_streams _) no_finish_keeps_next). Qed.
+
+(* the full interpreter (stage 2: streams, canon, stream folds) *)
+Lemma c19_hook2 : hook_preserves c19_rel stream_instr.
+Proof. apply stream_instr_preserves. apply c19_rel_exec_invariant. Qed.
+
+Lemma finish_streams_keeps_next : finish_keeps_next finish_streams.
+Proof. intros x x1 E. destruct (finish_streams_frame _ _ E) as (_ & _ & F3 & _). exact F3. Qed.
+
+Corollary exec2_c19 fuel i x y : outcome_ctx (exec stream_instr fuel i x) = Some y -> c19_rel x y.
+Proof. apply (c19_exec stream_instr c19_hook2). Qed.
+
+Corollary run2_next_peers fuel i code d next reqs signed :
+  run2 fuel i = OutNewData code d next reqs signed ->
+  NoDup next /\ ~ In (rp_current_peer (ri_params i)) next.
+Proof. apply (run_next_peers stream_instr finish_streams c19_hook2 finish_streams_keeps_next). Qed.
 
 (* ------------------------------------------------------------------------------------------ *)
 (* 3 *)
